@@ -130,7 +130,11 @@ func (ce *convergenceElem) activate() (successful, retry bool) {
 		}).Info("Failed to start CLA")
 
 		if claRetry {
-			atomic.AddInt32(&ce.ttl, -1)
+			// A negative ttl marks an active convergenceElem. Never count a failing
+			// one down below zero, e.g., a permanent CLA with an exhausted ttl.
+			if atomic.LoadInt32(&ce.ttl) > 0 {
+				atomic.AddInt32(&ce.ttl, -1)
+			}
 		} else {
 			atomic.StoreInt32(&ce.ttl, 0)
 		}
